@@ -220,6 +220,8 @@ def run(check, an: Analysis):
                    'and marks a given signal as scheduled (%d paths)' % n, analysed=n)
     # ---- spin -----------------------------------------------------------------
     c07.check_immediacy(check, an, 'spin')
+    # the kernel's own waiting loop gives the others a turn in every round
+    _scope.check_await_children_progress(check, an, 'spin')
     # ---- shared ---------------------------------------------------------------
     c01._check_schedule_preconditions(check, an)
     n = _scope.check_forced_close(check, an, only_modules=('usim._', 'usim.__'))
@@ -476,17 +478,31 @@ def _check_subscribe_protocol(check, an: Analysis):
             elif not park and not sched:
                 marked_ok = False
         removed, revokes, n_unsub = set(), False, 0
+        idle = None
         for path in an.inlined_paths(Callee(unsub, qn), c01._inline_sync, 4):
             if not path.normal:
                 continue
             n_unsub += 1
+            acted = False
             for event in path.events:
                 if event.kind in ('call', 'enter') and isinstance(event.node, ast.Call):
                     text = rules.text_at(path, event, event.node.func)
                     if text == 'self._waiting.remove':
                         removed.add(event.recv)
+                        acted = True
                     elif text == 'interrupt.revoke':
                         revokes = True
+                        acted = True
+            if not acted and idle is None:
+                idle = path
+        # a subscription is either still parked or its delivery is under way: whichever
+        # way unsubscribing goes, it takes the pair out of a list or revokes the signal
+        check.instance('S', '%s:unsubscribe-acts-on-every-path' % label, idle is None
+                       and n_unsub > 0, where_fn(unsub),
+                       'no way through __unsubscribe__ leaves both the waiter lists and the '
+                       'signal untouched (%d paths)' % n_unsub,
+                       path=rules.path_lines(idle) if idle is not None else None,
+                       analysed=n_unsub)
         ok = parked <= removed and marked_ok and revokes and n_sub > 0 and n_unsub > 0
         check.instance('S', '%s:subscribe/unsubscribe' % label, ok, where_fn(sub),
                        'parks in the waiter lists of %s, unsubscribe removes from %s; '
